@@ -232,7 +232,8 @@ let () =
          | 'X' ->
            let what = String.trim (String.sub line 1 (String.length line - 1)) in
            let what = String.map (fun c -> if c = ' ' then '_' else c) what in
-           if starts_with what "neighbour" then report_spec ~prop:"C13" ~pred:"neighbours_untouched" ~detail:what
+           if starts_with what "callback_arguments" then report_spec ~prop:"C13" ~pred:"callback_arguments_like_std" ~detail:what
+           else if starts_with what "neighbour" then report_spec ~prop:"C13" ~pred:"neighbours_untouched" ~detail:what
            else if starts_with what "final_drop_mismatch" then report_spec ~prop:"C15" ~pred:"final_drop_exact" ~detail:what
            else report_spec ~prop:"C16" ~pred:"no_double_drop" ~detail:what
          | 'G' ->
@@ -286,6 +287,15 @@ let () =
                  if bd <> sd && not panicked then report_spec ~prop:"C15" ~pred:"zst_drops_like_std" ~detail:(bd ^ "_vs_std_" ^ sd)
                | _ -> ())
             | _ -> ())
+         | 'R' ->
+           (* C18 growth probes: R name es=.. .. reallocs|moved=<k> bound=<b> *)
+           let kv = List.filter_map (fun it -> match String.index_opt it '=' with
+               | Some i -> Some (String.sub it 0 i, String.sub it (i + 1) (String.length it - i - 1)) | None -> None) (split_ws line) in
+           let name = (match split_ws line with _ :: n :: _ -> n | _ -> "?") in
+           hid := "growth"; opno := 0; header := ""; cur := String.trim line; bump_count "growth_probes";
+           let got = int_of_string (try List.assoc "reallocs" kv with Not_found -> List.assoc "moved" kv) in
+           let bound = int_of_string (List.assoc "bound" kv) in
+           if got > bound then report_spec ~prop:"C18" ~pred:name ~detail:(String.map (fun c -> if c = ' ' then '_' else c) (String.trim line))
          | 'Z' ->
            let secs = List.map String.trim (String.split_on_char '|' line) in
            (match secs with
